@@ -57,6 +57,17 @@ Proof.
 Qed.
 Print Assumptions C33_persist_outside_lock_refuted.
 
+(** a 24 h refresh that reads the stored total before taking the peer lock (instead of under it,
+    as the code does) loses a concurrent update for good: regression witness *)
+Theorem C33_early_read_refresh_refuted :
+  exists s0 sched, let s := exec s0 sched in
+    lock s0 = None /\ mem s0 = restore (disk s0) /\ ~ (rT0 (gh s) + doneR (gh s) <= rT (restore (disk s))).
+Proof.
+  exists refresh_s0, refresh_witness_sched. destruct early_read_refresh_refuted as [A B]. cbv zeta in A, B |- *.
+  split; [reflexivity|]. split; [reflexivity|]. rewrite A, B. vm_compute. intros H. apply H. reflexivity.
+Qed.
+Print Assumptions C33_early_read_refresh_refuted.
+
 (** non-vacuity: a run in which operations really complete and are covered *)
 Example C33_nonvacuous :
   let s := exec (boot true d_zero (ghost0 (restore d_zero)) [[PutR 5; PutT 7]; [PutR 3]; [Pay 4]; [Recv 9]])
